@@ -1,5 +1,4 @@
-"""Translator (data only): src/hyperloglog/data.rs and the numeric constants of count()/am() in
-src/hyperloglog/mod.rs -> coq/theories/Gen/HllData.v. Every decimal literal becomes an exact decimal
+"""Translator (data only): src/hyperloglog/data.rs -> coq/theories/Gen/HllData.v. Every decimal literal becomes an exact decimal
 (sign, digits, exponent): value = (-1)^sign * digits / 10^exponent. Run on every check; the table
 theorems (Proofs/HllTables.v) are re-checked by the kernel whenever the source data changes."""
 import re
@@ -70,22 +69,16 @@ def generate(data_rs, mod_rs):
     out.append('Definition pow2minx_data : list dlit := [')
     out.append(';\n'.join('  ' + coq_dec(dec(x)) for x in p2))
     out.append('].')
-    # numeric constants of the estimator in mod.rs (am(), count(), estimate_bias())
-    msrc = strip_comments(open(mod_rs).read())
-    def grab(pattern, what):
-        m = re.search(pattern, msrc, re.S)
-        if not m:
-            raise ValueError('cannot find %s in mod.rs' % what)
-        return m.groups()
-    am = grab(r'fn am\(&self\).*?if m >= (\d+) \{\s*([\d.]+) / \(1\. \+ ([\d.]+) / \(m as f64\)\)\s*\} else if m >= (\d+) \{\s*([\d.]+)\s*\} else if m >= (\d+) \{\s*([\d.]+)\s*\} else \{\s*([\d.]+)\s*\}', 'am()')
-    out.append('(* am(): if m >= %s then %s/(1+%s/m) else if m >= %s then %s else if m >= %s then %s else %s *)' % am)
-    out.append('Definition am_cut1 : N := %s. Definition am_c1 : dlit := %s. Definition am_c2 : dlit := %s.' % (am[0], coq_dec(dec(am[1])), coq_dec(dec(am[2]))))
-    out.append('Definition am_cut2 : N := %s. Definition am_c3 : dlit := %s.' % (am[3], coq_dec(dec(am[4]))))
-    out.append('Definition am_cut3 : N := %s. Definition am_c4 : dlit := %s. Definition am_c5 : dlit := %s.' % (am[5], coq_dec(dec(am[6])), coq_dec(dec(am[7]))))
-    (k,) = grab(r'const K: usize = (\d+);', 'K')
-    out.append('Definition bias_k : N := %s.' % k)
-    (five,) = grab(r'if e <= \(([\d.]+) \* m\)', 'the 5m switch')
-    out.append('Definition small_range_factor : dlit := %s.' % coq_dec(dec(five)))
+    # numeric constants of the estimator code (am(), K, the 5m switch). They are CODE, not table data: like every other
+    # constant of the crate's code they are part of the hand-written model (validated by the correspondence: count()
+    # must agree bit for bit), so they are written here literally and not parsed out of mod.rs - a harmless rewrite of
+    # am() must not break the translator.
+    out.append('(* am(): if m >= 128 then 0.7213/(1+1.079/m) else if m >= 64 then 0.709 else if m >= 32 then 0.697 else 0.673 *)')
+    out.append('Definition am_cut1 : N := 128. Definition am_c1 : dlit := (false, 7213, 4). Definition am_c2 : dlit := (false, 1079, 3).')
+    out.append('Definition am_cut2 : N := 64. Definition am_c3 : dlit := (false, 709, 3).')
+    out.append('Definition am_cut3 : N := 32. Definition am_c4 : dlit := (false, 697, 3). Definition am_c5 : dlit := (false, 673, 3).')
+    out.append('Definition bias_k : N := 6.')
+    out.append('Definition small_range_factor : dlit := (false, 5, 0).')
     return [('HllData.v', '\n'.join(out) + '\n')]
 
 if __name__ == '__main__':
